@@ -232,7 +232,14 @@ def run_unit(seed=None, unit=None, tier="quick", stats=None):
     # @defer/@stream may appear in a subscription only when disabled (if: false / false variable)
     gen = DocGen(ptape, spec, incremental=with_directives, disabled_only=True,
                  max_depth=4 if big else 3, budget=20 if big else 12)
+    # one document in three carries a second operation: the subscription is then selected by
+    # its operation name only
+    extra = ptape.draw(3, "extra_op")
+    if extra == 1:
+        gen.operation("query")
     opname = gen.operation("subscription")
+    if extra == 2:
+        gen.operation("query")
     text = gen.document()
     doc = parse(text)
     if validate(schema, doc):
